@@ -10,6 +10,6 @@ cat /repo/go.sum /repo/core/go.sum /repo/da/go.sum /repo/sequencers/single/go.su
 python3 "$ROOT/mkoverlay.py" "$ROOT/build/setup"
 # warm the cache: compile every property package once (no tests run)
 go test -vet=off -tags verif -overlay "$ROOT/build/setup/overlay.json" -count=1 -run '^$' ./... > "$ROOT/build/setup/build.log" 2>&1 || { cat "$ROOT/build/setup/build.log"; exit 1; }
-# the free-running -race supplement of C13 is built with -race: warm that part of the cache too
-go test -race -vet=off -tags verif -overlay "$ROOT/build/setup/overlay.json" -count=1 -run '^$' ./props/c13/race >> "$ROOT/build/setup/build.log" 2>&1 || { cat "$ROOT/build/setup/build.log"; exit 1; }
+# the free-running -race supplements (props/*/race) are built with -race: warm that part of the cache too
+go test -race -vet=off -tags verif -overlay "$ROOT/build/setup/overlay.json" -count=1 -run '^$' ./props/c10/race ./props/c12/race ./props/c13/race ./props/c16/race >> "$ROOT/build/setup/build.log" 2>&1 || { cat "$ROOT/build/setup/build.log"; exit 1; }
 echo "setup ok"
